@@ -36,7 +36,7 @@ import (
 	"verif/harness/internal/lsched"
 )
 
-const waitT = 15 * time.Second
+const waitT = 8 * time.Second
 
 type Item struct {
 	K     string `json:"k"` // call | step | kill
@@ -57,6 +57,8 @@ type Scenario struct {
 	Backend string `json:"backend"` // os | mem
 	Ovr     []bool `json:"ovr"`
 	Items   []Item `json:"items"`
+	NoParent bool  `json:"noparent,omitempty"` // the directory the lock lives in does not exist (oracle only, no Coq case)
+	Atomic  bool   `json:"atomic,omitempty"` // generate under the atomic-release restriction (no Mkdir of another contender succeeds inside a release window)
 	Seed    int64  `json:"seed,omitempty"` // >0: items are generated online from this seed (MaxItems of them)
 	Max     int    `json:"max,omitempty"`
 }
@@ -79,6 +81,7 @@ type Outcome struct {
 	Fails   []fail
 	Stuck   string
 	Invalid string // an item of a fixed schedule was not executable (replay of a foreign tree)
+	Zombies int    // heartbeat writers that came back although their lock object's cancel store had been cancelled
 	Acq     int    // successful acquires
 	Rel     int    // successful unlocks
 	Kinds   map[string]int
@@ -125,6 +128,10 @@ func opCode(op, class string, n int) int {
 		}
 	case "Open:hb":
 		return 11
+	case "Lstat:dir":
+		return 14
+	case "Lstat:hb":
+		return 15
 	case "OpenFile:hb":
 		return 8
 	case "Chtimes:dir":
@@ -186,6 +193,11 @@ type contender struct {
 	alive   bool
 	eng     int // generation created and not yet begun to release, -1 none
 	mkThis  bool
+	relGen  int  // Unlock call: the generation this contender is releasing
+	rmOwn   bool // Unlock call: it has itself removed that generation
+	judged  int  // acquire call: generation present at its latest stale verdict (-2 none)
+	win     bool // release window of the call in progress is open (Unlock, or a stale time stamp read, no own Mkdir since)
+	hbDoneAt []time.Time
 	hbPC    []int  // per heartbeat writer: 0 at OpenFile, 1 at Chtimes, 2 done
 	hbCanc  []bool // cancelled
 	done    chan struct{}
@@ -201,13 +213,13 @@ type engine struct {
 	curGen  int
 	nextGen int
 	creator map[int]int
-	lastBad string
+	badGen  map[int]string // generation destroyed while its creator held it -> signature
 	out     *Outcome
 	wg      sync.WaitGroup
 }
 
 func newEngine(sc *Scenario, runRoot string) (*engine, error) {
-	e := &engine{sc: sc, curGen: -1, creator: map[int]int{}, out: &Outcome{Kinds: map[string]int{}}}
+	e := &engine{sc: sc, curGen: -1, creator: map[int]int{}, badGen: map[int]string{}, out: &Outcome{Kinds: map[string]int{}}}
 	var inner afero.Fs
 	var base string
 	var kind filesystem.FilesystemType
@@ -226,6 +238,9 @@ func newEngine(sc *Scenario, runRoot string) (*engine, error) {
 		base = d
 		inner = filesystem.NewExtendedOsFs()
 		kind = filesystem.StandardFS
+	}
+	if sc.NoParent {
+		base = filepath.Join(base, "missing")
 	}
 	dirPath := filepath.Join(base, "lockfile-x")
 	e.s = lsched.New(dirPath, filepath.Join(dirPath, "x.lock"))
@@ -318,8 +333,11 @@ func (e *engine) exec(it Item) bool {
 				x.hbCanc[k] = true
 			}
 			x.holds = false
+			x.relGen, x.rmOwn = x.eng, false
 			x.eng = -1
 		}
+		x.judged = -2
+		x.win = it.Api == "Unlock"
 		x.inCall, x.api, x.mkThis = true, it.Api, false
 		x.ret.Store(nil)
 		x.done = make(chan struct{})
@@ -338,6 +356,9 @@ func (e *engine) exec(it Item) bool {
 				err = x.lock.Unlock(e.ctx)
 			}
 			rc := retCode(err)
+			if api == "Unlock" && rc != 1 {
+				rc = 5 // Unlock: success or failure (the joined retry errors contain every kind)
+			}
 			x.ret.Store(&rc)
 			close(done)
 			e.s.Notify()
@@ -355,7 +376,7 @@ func (e *engine) exec(it Item) bool {
 		return true
 	case "until", "finish":
 		skip := it.Skip
-		for n := 0; n < 5000; n++ {
+		for n := 0; n < 1500; n++ {
 			if !x.inCall {
 				if it.K == "until" {
 					e.out.Invalid = "call returned before reaching " + it.Op + " " + it.Class
@@ -422,6 +443,10 @@ func (e *engine) stepHb(it Item) bool {
 	} else {
 		if x.hbCanc[k] {
 			x.hbPC[k] = 2
+			for len(x.hbDoneAt) <= k {
+				x.hbDoneAt = append(x.hbDoneAt, time.Time{})
+			}
+			x.hbDoneAt[k] = time.Now()
 		} else {
 			x.hbPC[k] = 0 // asleep for one period, then at OpenFile again
 		}
@@ -449,6 +474,13 @@ func (e *engine) stepMain(it Item) bool {
 	}
 	it.Stale = stale
 	res := e.s.Release(p, stale)
+	if stale && (res == "isdir" || res == "isfile") {
+		x.judged = e.curGen
+		x.win = true
+	}
+	if p.Op == "Mkdir" {
+		x.win = false
+	}
 	o := &StepObs{Op: opCode(p.Op, p.Class, p.N), Res: resCode(res)}
 	e.out.Kinds[fmt.Sprintf("%s:%s:%s:%s", x.api, p.Op, p.Class, res)]++
 	// ---- the harness's own ghost + oracle ----
@@ -463,17 +495,27 @@ func (e *engine) stepMain(it Item) bool {
 		if e.liveOwner() {
 			y := e.creator[e.curGen]
 			e.out.Bad = true
+			sig := ""
 			switch {
-			case x.api == "Unlock" && y != c:
-				e.lastBad = "K1"
-				e.fail("K1-unlock-retry-destroys-successor-lock", fmt.Sprintf("contender %d, inside Unlock, removed the lock directory that contender %d had created afterwards and still holds", c, y))
-			case x.api != "Unlock" && y != c:
-				e.lastBad = "K2"
-				e.fail("K2-stale-takeover-destroys-fresh-lock", fmt.Sprintf("contender %d, releasing a lock it had judged stale, removed the fresh lock directory of contender %d", c, y))
+			case x.api == "Unlock" && y != c && x.rmOwn:
+				// Unlock had removed its own directory; its existence re-check saw the successor's; the retry removed it
+				sig = "K1-unlock-retry-destroys-successor-lock"
+				e.fail(sig, fmt.Sprintf("contender %d, inside Unlock, after removing its own lock directory, removed the one contender %d had created afterwards and still holds", c, y))
+			case x.api == "Unlock" && y != c && e.curGen != x.relGen:
+				// a slow Unlock (heartbeat already cancelled) whose lock was taken over as stale meanwhile removes the taker's lock
+				sig = "K1b-slow-unlock-destroys-takeover-lock"
+				e.fail(sig, fmt.Sprintf("contender %d, inside Unlock, removed the lock directory of contender %d, who had taken the lock over (judged stale) while the Unlock was in progress", c, y))
+			case x.api != "Unlock" && y != c && x.judged >= 0 && x.judged != e.curGen:
+				sig = "K2-stale-takeover-destroys-fresh-lock"
+				e.fail(sig, fmt.Sprintf("contender %d, releasing generation %d which it had judged stale, removed the fresh lock directory (generation %d) of contender %d", c, x.judged, e.curGen, y))
 			default:
-				e.lastBad = "self"
-				e.fail("removal-of-own-held-lock", fmt.Sprintf("contender %d removed the directory it holds outside a release", c))
+				sig = "live-lock-removed"
+				e.fail(sig, fmt.Sprintf("contender %d (in %s) removed the lock directory that contender %d holds, alive, without any of the known race patterns", c, x.api, y))
 			}
+			e.badGen[e.curGen] = sig
+		}
+		if x.api == "Unlock" && e.curGen == x.relGen {
+			x.rmOwn = true
 		}
 		e.curGen = -1
 	}
@@ -498,6 +540,7 @@ func (e *engine) finishCall(c int, o *StepObs) bool {
 		o.Ret = rc
 	}
 	x.inCall = false
+	x.win = false
 	e.out.Kinds[fmt.Sprintf("ret:%s:%d", x.api, rc)]++
 	if x.api == "Unlock" {
 		if rc == 1 {
@@ -512,25 +555,24 @@ func (e *engine) finishCall(c int, o *StepObs) bool {
 	if !x.mkThis {
 		e.fail("acquire-success-without-mkdir", fmt.Sprintf("contender %d: %s returned success although no Mkdir of the call succeeded", c, x.api))
 	}
-	var others []string
+	x.holds = true
 	for d, y := range e.cs {
 		if d != c && y.holds && y.alive {
-			others = append(others, fmt.Sprint(d))
+			cause := "unexplained"
+			// one of the two directories must have been destroyed while its creator held it
+			if sg, ok := e.badGen[y.eng]; ok {
+				cause = "after-" + strings.SplitN(sg, "-", 2)[0]
+			} else if sg, ok := e.badGen[x.eng]; ok {
+				cause = "after-" + strings.SplitN(sg, "-", 2)[0]
+			}
+			e.fail("overlap:"+cause, fmt.Sprintf("contender %d acquired the lock while contender %d holds it, alive, and has not begun to release", c, d))
 		}
-	}
-	x.holds = true
-	if len(others) > 0 {
-		cause := "unexplained"
-		if e.lastBad != "" {
-			cause = "after-" + e.lastBad
-		}
-		e.fail("overlap:"+cause, fmt.Sprintf("contender %d acquired the lock while contender(s) %s hold it, alive, and have not begun to release", c, strings.Join(others, ",")))
 	}
 	// the new heartbeat writer arrives at its first OpenFile
 	k := len(x.hbPC)
 	x.hbPC = append(x.hbPC, 0)
 	x.hbCanc = append(x.hbCanc, false)
-	if p, _ := e.s.WaitPending(lsched.Actor{C: c, HB: k}, nil, waitT); p == nil {
+	if p, _ := e.s.WaitPending(lsched.Actor{C: c, HB: k}, nil, 4*time.Second); p == nil {
 		e.out.Stuck = "heartbeat writer did not start"
 		return false
 	}
@@ -542,6 +584,30 @@ func (e *engine) finish() {
 		if x.holds && x.alive {
 			e.out.Holders++
 		}
+	}
+	// a heartbeat writer that was cancelled must not come back after its last Chtimes (one period = 50 ms)
+	var latest time.Time
+	for _, x := range e.cs {
+		for _, t := range x.hbDoneAt {
+			if t.After(latest) {
+				latest = t
+			}
+		}
+	}
+	if !latest.IsZero() && e.out.Stuck == "" {
+		if d := 150*time.Millisecond - time.Since(latest); d > 0 {
+			time.Sleep(d)
+		}
+		for c, x := range e.cs {
+			for k, pc := range x.hbPC {
+				if pc == 2 && x.alive && e.s.Peek(lsched.Actor{C: c, HB: k}) != nil {
+					e.out.Zombies++
+				}
+			}
+		}
+	}
+	if n := atomic.LoadInt64(&e.s.Panics); n > 0 {
+		e.out.Kinds["backend-panic-converted"] += int(n)
 	}
 	e.cancel()
 	e.s.Free()
@@ -610,6 +676,21 @@ func (e *engine) generate(rng *rand.Rand, max int) {
 				r -= x.w
 			}
 		}
+		if e.sc.Atomic && it.K == "step" && it.HB == 0 {
+			// atomic-release restriction: a Mkdir that would succeed is not scheduled while another contender's window is open
+			if p := e.s.Peek(lsched.Main(it.C)); p != nil && p.Op == "Mkdir" && e.curGen < 0 {
+				for d, y := range e.cs {
+					if d == it.C || !y.inCall || !y.win || !y.alive {
+						continue
+					}
+					// a contender whose next operation is its own Mkdir has finished its release: its window is closed
+					if q := e.s.Peek(lsched.Main(d)); q != nil && q.Op != "Mkdir" {
+						it = Item{K: "step", C: d} // let the releaser go on instead
+						break
+					}
+				}
+			}
+		}
 		if it.K == "step" && it.HB == 0 {
 			cur = it.C
 			if p := e.s.Peek(lsched.Main(it.C)); p != nil && p.Op == "Stat" && e.curGen >= 0 && !e.liveOwner() {
@@ -672,7 +753,7 @@ func coqCase(sc *Scenario, o *Outcome) string {
 			fmt.Fprintf(&b, "S_ %d %d %d %d %d %d", it.C, it.HB, st, ob.Op, ob.Res, ob.Ret)
 		}
 	}
-	fmt.Fprintf(&b, "]%%list %d %s)", o.Holders, h.Bool(o.Bad))
+	fmt.Fprintf(&b, "]%%list %d %s %d %s)", o.Holders, h.Bool(o.Bad), o.Zombies, h.Bool(sc.Atomic))
 	s := b.String()
 	// numbers are nat: the case files open Z_scope
 	return "(" + s + ")%nat"
@@ -733,6 +814,18 @@ func scK2(backend string) *Scenario {
 	)}
 }
 
+// K1b: A holds and begins to unlock (heartbeat cancelled); before A's Rm has removed anything B (override) judges A's
+// lock stale, releases it and acquires; A's Rm then removes B's directory; C acquires while B holds.
+func scK1b(backend string) *Scenario {
+	return &Scenario{Tag: "K1b", Backend: backend, Ovr: []bool{false, true, false}, Items: one(
+		call(0, "TryLock"), fin(0, false),
+		call(0, "Unlock"), until(0, "Remove", "dir", false), // A is about to remove its own directory
+		call(1, "TryLock"), fin(1, true), // B takes the (released, silent) lock over
+		fin(0, false), // A removes B's directory
+		call(2, "TryLock"), fin(2, false),
+	)}
+}
+
 func corners() []*Scenario {
 	var out []*Scenario
 	add := func(tag string, ovr []bool, items ...Item) {
@@ -781,6 +874,31 @@ func corners() []*Scenario {
 	// two stale-releasers, serialised (A2 respected): exactly one takes over
 	add("two-overriders-serial", []bool{false, true, true}, call(0, "TryLock"), fin(0, false), kill(0),
 		call(1, "TryLock"), fin(1, true), call(2, "TryLock"), fin(2, false))
+	// the non-vacuity example of lock_mutex_under_atomic_release (coq/C01/Witness.v ex_entries): dead holder, override,
+	// a poller; no Mkdir of another contender is scheduled inside a release window; each contender holds once
+	add("restricted-example", []bool{false, true, true}, call(0, "TryLock"), fin(0, false), hb(0, 0), hb(0, 0), kill(0),
+		call(1, "TryLock"), fin(1, true), call(2, "Lock"), untilN(2, "Mkdir", "dir", 1, false), hb(1, 0), hb(1, 0),
+		call(1, "Unlock"), fin(1, false), hb(1, 0), hb(1, 0), fin(2, false))
+	// Unlock exhausts its 10 attempts: after every removal another contender re-creates the directory before the check
+	{
+		items := one(call(0, "TryLock"), fin(0, false), call(0, "Unlock"))
+		for i := 0; i < 10; i++ {
+			items = append(items, until(0, "Remove", "dir", false), step(0))
+			if i > 0 {
+				items = append(items, call(1, "Unlock"), fin(1, false))
+			}
+			items = append(items, call(1, "TryLock"), fin(1, false))
+		}
+		items = append(items, fin(0, false), call(0, "TryLock"), fin(0, false))
+		add("unlock-exhausts-retries", ff, items...)
+	}
+	// the directory the lock lives in is missing: Mkdir fails with something else than "exists": no acquire may succeed
+	for _, b := range []string{"os", "mem-skip"} {
+		if b == "os" {
+			out = append(out, &Scenario{Tag: "missing-parent", Backend: b, Ovr: tt, NoParent: true, Items: one(
+				call(0, "TryLock"), fin(0, false), call(0, "Lock"), fin(0, false), call(1, "LockWithTimeout"), fin(1, false))})
+		}
+	}
 	// four contenders in turn
 	add("four", []bool{false, true, false, true}, call(0, "Lock"), fin(0, false), call(1, "TryLock"), fin(1, false),
 		call(2, "LockWithTimeout"), untilN(2, "Mkdir", "dir", 1, false), call(0, "Unlock"), fin(0, false), fin(2, false),
@@ -815,7 +933,7 @@ func runAll(jobs []*job, runRoot string, par int) {
 }
 
 func replayOf(sc *Scenario, o *Outcome) *Scenario {
-	return &Scenario{Tag: sc.Tag, Backend: sc.Backend, Ovr: sc.Ovr, Items: o.Items}
+	return &Scenario{Tag: sc.Tag, Backend: sc.Backend, Ovr: sc.Ovr, Items: o.Items, NoParent: sc.NoParent, Atomic: sc.Atomic}
 }
 
 func main() {
@@ -832,6 +950,7 @@ func main() {
 	}
 	defer os.RemoveAll(runRoot)
 
+	stuckChecked := 0
 	process := func(j *job, emitCase bool) {
 		sc, o := j.sc, j.out
 		r.Eval()
@@ -846,17 +965,22 @@ func main() {
 			r.CountN("obs:"+k, o.Kinds[k])
 		}
 		if o.Stuck != "" {
-			// confirm 3 of 3 before reporting: a stall of the machine must not raise an alarm
-			again := 0
-			for i := 0; i < 2; i++ {
-				if o2 := runScenario(replayOf(sc, o), runRoot); o2.Stuck != "" {
-					again++
+			// confirm 3 of 3 before reporting (a stall of the machine must not raise an alarm); only the first two stuck
+			// scenarios are re-run, the others are counted
+			r.Count("stuck")
+			if stuckChecked < 2 {
+				stuckChecked++
+				again := 0
+				for i := 0; i < 2; i++ {
+					if o2 := runScenario(replayOf(sc, o), runRoot); o2.Stuck != "" {
+						again++
+					}
 				}
-			}
-			if again == 2 {
-				r.Fail("scenario-stuck", "scheduled scenario does not make progress: "+o.Stuck, replayOf(sc, o))
-			} else {
-				r.Note("scenario " + sc.Tag + " stalled once (" + o.Stuck + "), not confirmed")
+				if again == 2 {
+					r.Fail("scenario-stuck", "scheduled scenario does not make progress: "+o.Stuck, replayOf(sc, o))
+				} else {
+					r.Note("scenario " + sc.Tag + " stalled once (" + o.Stuck + "), not confirmed")
+				}
 			}
 			return
 		}
@@ -865,9 +989,14 @@ func main() {
 			r.Note("scenario " + sc.Tag + "/" + sc.Backend + ": " + o.Invalid)
 		}
 		for _, f := range o.Fails {
-			r.Fail(f.Sig, f.What, replayOf(sc, o))
+			sig := f.Sig
+			if sc.Atomic {
+				// under the atomic-release restriction NOTHING may fail (lock_mutex_under_atomic_release): not a known finding
+				sig = "under-atomic-release:" + sig
+			}
+			r.Fail(sig, f.What, replayOf(sc, o))
 		}
-		if emitCase && sc.Backend == "os" {
+		if emitCase && sc.Backend == "os" && !sc.NoParent {
 			term := coqCase(sc, o)
 			r.Case(term, map[string]any{"tag": sc.Tag, "ovr": sc.Ovr, "items": len(o.Items)})
 			if o.Kinds["call:TryLock"]+o.Kinds["call:Lock"]+o.Kinds["call:LockWithTimeout"] >= 2 {
@@ -890,14 +1019,14 @@ func main() {
 	// 1. the two known findings, replayed first on every run, on both back ends
 	var jobs []*job
 	for _, b := range []string{"os", "mem"} {
-		jobs = append(jobs, &job{sc: scK1(b)}, &job{sc: scK2(b)})
+		jobs = append(jobs, &job{sc: scK1(b)}, &job{sc: scK2(b)}, &job{sc: scK1b(b)})
 	}
 	// 2. deterministic corner cases
 	for _, sc := range corners() {
 		jobs = append(jobs, &job{sc: sc})
 	}
 	// 3. seeded random schedules
-	nOs, nMem := r.N(140, 4000), r.N(20, 400)
+	nOs, nMem := r.N(300, 4000), r.N(40, 400)
 	for i := 0; i < nOs+nMem; i++ {
 		n := 2 + r.Rng.Intn(3)
 		ovr := make([]bool, n)
@@ -908,7 +1037,12 @@ func main() {
 		if i >= nOs {
 			b = "mem"
 		}
-		jobs = append(jobs, &job{sc: &Scenario{Tag: fmt.Sprintf("random:%d", i), Backend: b, Ovr: ovr, Seed: 1 + r.Rng.Int63n(1<<40), Max: 200 + r.Rng.Intn(250)}})
+		atomic := r.Rng.Intn(100) < 35 && b == "os" // the theorem is about POSIX directory semantics
+		tag := "random"
+		if atomic {
+			tag = "random-atomic"
+		}
+		jobs = append(jobs, &job{sc: &Scenario{Tag: fmt.Sprintf("%s:%d", tag, i), Backend: b, Ovr: ovr, Atomic: atomic, Seed: 1 + r.Rng.Int63n(1<<40), Max: 200 + r.Rng.Intn(250)}})
 	}
 	runAll(jobs, runRoot, 24)
 	for _, j := range jobs {
